@@ -33,4 +33,5 @@ def run(ctx, rep):
     rep.run(RM.rule_ignore_list_kept_as_given, ctx, rep, "X8")
     # X9: the command-line scripts hand --ignore to the wrappers as given (an entry without `::` names a class at global scope) (= C16 Y3)
     rep.run(RC.rule_option_plumbing, ctx, rep, "X9", only_flags=("--ignore",))
+    rep.run(RP.rule_class_handling_consults_ignore_list, ctx, rep, "X10")
     rep.run(RF.rule_locals_defined, ctx, rep, "U1", packages=("gtwrap/matlab_wrapper", "gtwrap/pybind_wrapper.py"), min_functions=3)
